@@ -186,3 +186,19 @@ fault("C12.no-calc-conflicts-on-load", "C12", T, "        self.calc_conflicts_an
       "        if calc_finish_flags:\n            self.calc_conflicts_and_dynamic_terminals(debug)\n\n    def sort_state_actions", "R12.fields")
 benign("C12.b-handler-exception", "C12", T, "        except ValueError:\n            # Incomplete", "        except (ValueError, KeyError):\n            # Incomplete")
 benign("C12.b-narrow-json-ascii", "C12", T, "        except ValueError:\n            # Incomplete", "        except __import__('json').JSONDecodeError:\n            # Incomplete")
+
+# ---------------------------------------------------------------- C16
+fault("C16.set-per-next-symbol", "C16", T, "        for symbol, items in per_next_symbol.items():", "        for symbol in set(per_next_symbol):\n            items = per_next_symbol[symbol]", "R16.taint")
+fault("C16.no-sort-call", "C16", T, "            self.sort_state_actions()\n", "", "R16.sanitiser")
+fault("C16.for-actor-set", "C16", G, "self._for_actor = list(self._active_heads.values())", "self._for_actor = list(set(self._active_heads.values()))", "R16.taint")
+fault("C16.tiebreak-name", "C16", T, "                symbol.fqn,\n            )\n            return cmp_str", "                symbol.name,\n            )\n            return cmp_str", "R16.sanitiser")
+fault("C16.states-from-follow", "C16", T, "                for terminal in follow_set:\n                    if terminal not in actions:",
+      "                for terminal in follow_set:\n                    order_log.append(terminal)\n                    if terminal not in actions:", "R16.taint",
+      edits=[("                for terminal in follow_set:\n                    if terminal not in actions:",
+              "                for terminal in follow_set:\n                    order_log.append(terminal)\n                    if terminal not in actions:"),
+             ("    states = []\n\n    if debug:\n        h_print(\"Constructing LR automaton states...\")", "    states = []\n    order_log = []\n\n    if debug:\n        h_print(\"Constructing LR automaton states...\")")])
+fault("C16.revisit-heads-set", "C16", G, "for r_head_state in to_revisit:\n                        r_head = self._active_heads[r_head_state]",
+      "for r_head in {self._active_heads[s] for s in to_revisit}:", "R16.taint")
+fault("C16.dump-sorted", "C16", PS, "    for action in actions:\n        a = {}", "    for action in sorted(actions, key=lambda a: a.action):\n        a = {}", "R16.dump")
+fault("C16.accepted-set", "C16", G, "        self._accepted_heads = []\n", "        self._accepted_heads = set()\n", "R16.driver-order")
+benign("C16.b-sorted-follow", "C16", T, "                for terminal in follow_set:\n                    if terminal not in actions:", "                for terminal in sorted(follow_set, key=lambda t: t.fqn):\n                    if terminal not in actions:")
